@@ -7,7 +7,7 @@ import os
 import re
 
 first, last = {}, {}
-for f in sorted(glob.glob('/verif/seeded/RESULTS*.tsv')):
+for f in sorted(glob.glob('/verif/seeded/RESULTS*.tsv'), key=lambda f: int(re.search(r'round(\d+)', f).group(1))):
     for l in open(f):
         p = l.rstrip('\n').split('\t')
         if len(p) >= 3:
